@@ -307,6 +307,48 @@ fn gen_addr(rng: &mut Rng, ll: &Option<Ieee802154Address>, dst: bool) -> [u8; 16
             a[1] = 0x80;
             a[8..].copy_from_slice(&r[8..]);
         }
+        5 if rng.chance(1, 2) => {
+            // near misses of the compressible link-local forms: one octet of the pattern is off
+            a[0] = 0xfe;
+            a[1] = 0x80;
+            match rng.below(3) {
+                0 => {
+                    // 0000:00ff:fe00:XXXX with one octet changed
+                    a[11] = 0xff;
+                    a[12] = 0xfe;
+                    a[14] = r[14];
+                    a[15] = r[15];
+                    if let Some(Ieee802154Address::Short(s)) = ll {
+                        if rng.chance(1, 2) {
+                            a[14] = s[0];
+                            a[15] = s[1];
+                        }
+                    }
+                    let k = rng.range(8, 13) as usize;
+                    a[k] ^= 1 << rng.below(8);
+                }
+                1 => {
+                    // EUI-64 of the link-layer address with one bit changed
+                    if let Some(Ieee802154Address::Extended(e)) = ll {
+                        a[8..].copy_from_slice(e);
+                        a[8] ^= 2;
+                    } else {
+                        a[8..].copy_from_slice(&r[8..]);
+                    }
+                    let k = rng.range(8, 15) as usize;
+                    a[k] ^= 1 << rng.below(8);
+                }
+                _ => {
+                    // all but one octet zero (near the unspecified address / the bare prefix)
+                    if rng.chance(1, 2) {
+                        a[0] = 0;
+                        a[1] = 0;
+                    }
+                    let k = rng.range(0, 15) as usize;
+                    a[k] = r[k] | 1;
+                }
+            }
+        }
         5 => {
             // almost link-local (fe80::/10 but not fe80::/64)
             a.copy_from_slice(&r);
